@@ -1,7 +1,7 @@
 (** C15 - Parsing depends only on tokens and the documented grammar, precedence and sugar. (operator layer)
     Model: Parse/PrecClimb.v (mirrors prec_climb.rs, the precedence/associativity of BinaryOp and Term::climb). *)
 From Coq Require Import List Bool Arith.
-From JaqV Require Import Val.Err Parse.PrecClimb Proofs.PrecLaws.
+From JaqV Require Import Val.Err Parse.PrecClimb Proofs.PrecLaws Base.Bytes Parse.Lex Proofs.LexLaws.
 Import ListNotations.
 
 (** for every chain of operands and operators, of any length, the tree reads back in order as exactly that chain:
@@ -28,3 +28,16 @@ Theorem triples_as_tabulated :
     expr_eqb (parse_chain (Atom 0) [(o1, Atom 1); (o2, Atom 2); (o3, Atom 3)]) (reference3 o1 o2 o3)) all_ops) all_ops) all_ops = true.
 Proof. exact all_triples_group_as_tabulated. Qed.
 Print Assumptions triples_as_tabulated.
+
+(** the lexer (Parse/Lex.v mirrors jaq-core/src/load/lex.rs): white space and comments in front of a token change neither
+    the token, nor what follows it, nor the verdict - for every input *)
+Theorem token_skips_trivia : forall t s fuel, LexLaws.trivia t -> LexLaws.token_start s -> token fuel (t ++ s) = token fuel s.
+Proof. exact LexLaws.token_skips_trivia. Qed.
+Print Assumptions token_skips_trivia.
+
+Theorem tokens_skip_trivia : forall t s fuel, LexLaws.trivia t -> LexLaws.token_start s ->
+  let '(ts, r, ok) := tokens (S fuel) (t ++ s) in
+  let '(ts', r', ok') := tokens (S fuel) s in
+  ts = ts' /\ ok = ok' /\ (r = r' \/ (r = t ++ s /\ r' = s)).
+Proof. exact LexLaws.tokens_skip_trivia. Qed.
+Print Assumptions tokens_skip_trivia.
